@@ -29,6 +29,8 @@ def dec_of_float(v):
     while m and m % 10 == 0:
         m //= 10
         exp += 1
+    if m == 0:
+        exp = 0
     if sign:
         m = -m
     if abs(m) >= 2**53 or abs(exp) > 22:
@@ -104,6 +106,14 @@ class Tr:
         raise Fail('constant %r' % (v,))
 
     def e_Name(self, n):
+        mod = getattr(self, 'module', None)
+        if mod is not None:
+            for st in mod.body:
+                if isinstance(st, ast.Assign) and len(st.targets) == 1 \
+                   and isinstance(st.targets[0], ast.Name) and st.targets[0].id == n.id:
+                    sub = Tr({}, self.src)
+                    sub.module = mod
+                    return sub.expr(st.value)
         raise Fail('unbound name %s' % n.id)
 
     def e_Attribute(self, n):
@@ -263,6 +273,10 @@ class Tr:
             return ('(if %s then %s else %s)' % (c, a, b), 'I')
         return ('(if %s then %s else %s)' % (c, self.toR(a, ka), self.toR(b, kb)), 'R')
 
+    def e_List(self, n):
+        parts = [self.expr(e) for e in n.elts]
+        return ('[' + '; '.join(self.toR(t, k) for t, k in parts) + ']', ('L', 'R'))
+
     def e_Tuple(self, n):
         parts = [self.expr(e) for e in n.elts]
         return ('(' + ', '.join(p[0] for p in parts) + ')', ('TUP', tuple(p[1] for p in parts)))
@@ -295,6 +309,8 @@ class Tr:
                 return (t, 'I')
             return ('(ntrunc %s)' % self.toR(t, k), 'I')
         args = [self.expr(a) for a in n.args]
+        if fn == 'np.array' and len(args) == 1 and args[0][1] == ('L', 'R'):
+            return args[0]
         if fn == 'np.arange' and len(args) == 3:
             a, b, c = [self.toR(t, k) for t, k in args]
             return ('(np_arange %s %s %s)' % (a, b, c), ('L', 'R'))
@@ -378,6 +394,22 @@ class Tr:
                 if result[0] != 'return':
                     raise Fail('unexpected return')
                 return self.expr(s.value)
+            if isinstance(s, ast.Expr) and isinstance(s.value, ast.Call) \
+               and ast.unparse(s.value.func) == 'super().__init__' and result[0] == 'superinit':
+                vals = {}
+                for nm, a in zip(result[1], s.value.args):
+                    vals[nm] = a
+                for kw in s.value.keywords:
+                    vals[kw.arg] = kw.value
+                parts = []
+                for nm in result[1]:
+                    if nm not in vals:
+                        raise Fail('super().__init__ lacks argument %s' % nm)
+                    a = vals[nm]
+                    if isinstance(a, ast.Tuple):
+                        a = ast.List(elts=a.elts, ctx=ast.Load())
+                    parts.append(self.expr(a))
+                return ('(' + ', '.join(p[0] for p in parts) + ')', ('TUP', tuple(p[1] for p in parts)))
             if isinstance(s, ast.Assign):
                 t, k = self.expr(s.value)
                 for tg in s.targets:
@@ -401,9 +433,9 @@ class Tr:
             if isinstance(s, ast.If) and result[0] == 'return' and s.body \
                and isinstance(s.body[-1], ast.Return) and not s.orelse:
                 c = self.truthy(s.test)
-                sub = Tr(self.env, self.src); sub.fresh = self.fresh + 100
+                sub = Tr(self.env, self.src); sub.module = getattr(self, 'module', None); sub.fresh = self.fresh + 100
                 a, ka = sub.body(s.body, result)
-                rest = Tr(self.env, self.src); rest.fresh = self.fresh + 200
+                rest = Tr(self.env, self.src); rest.module = getattr(self, 'module', None); rest.fresh = self.fresh + 200
                 idx = stmts.index(s)
                 b, kb = rest.body(stmts[idx + 1:], result)
                 k = 'B' if (ka, kb) == ('B', 'B') else self.join(ka, kb)
@@ -417,7 +449,7 @@ class Tr:
                 # both branches may only (re)assign names; merge by phi
                 envs = []
                 for br in (s.body, s.orelse):
-                    sub = Tr(self.env, self.src)
+                    sub = Tr(self.env, self.src); sub.module = getattr(self, 'module', None)
                     sub.fresh = self.fresh + 100 * (1 + len(envs))
                     sl = []
                     r = sub.block(br, sl, ('none',))
@@ -439,6 +471,11 @@ class Tr:
                             t = 'let %s := %s in %s' % (nm, rhs, t)
                         vals.append((t, e[key][1]))
                     (a, ka), (b, kb) = vals
+                    if isinstance(ka, tuple) or isinstance(kb, tuple):
+                        if ka != kb:
+                            raise Fail('branches bind %s to different kinds' % key)
+                        self.bind(key, '(if %s then %s else %s)' % (c, a, b), ka, lets)
+                        continue
                     k = 'B' if (ka, kb) == ('B', 'B') else self.join(ka, kb)
                     if k == 'C':
                         a, b = self.toC(a, ka), self.toC(b, kb)
@@ -480,7 +517,7 @@ class Tr:
                 raise Fail('loop body statement %s' % type(st).__name__)
             if st.target.id not in accs:
                 accs.append(st.target.id)
-        sub = Tr(self.env, self.src)
+        sub = Tr(self.env, self.src); sub.module = getattr(self, 'module', None)
         sub.fresh = self.fresh + 1000
         for i, nm in enumerate(lists):
             sub.env['%s[%s]' % (nm, j)] = ('e%d_' % i, self.env[nm][1][1])
@@ -492,7 +529,7 @@ class Tr:
             sub.env[a] = ('a_%s' % a, self.env[a][1])
         # accumulators that become complex stay complex: iterate kinds to fixpoint
         for _ in range(3):
-            trial = Tr(sub.env, self.src)
+            trial = Tr(sub.env, self.src); trial.module = getattr(self, 'module', None)
             trial.fresh = sub.fresh
             sl = []
             trial.block(s.body, sl, ('none',))
@@ -578,6 +615,18 @@ def find_stmts(func, path):
                         break
             else:
                 raise Fail('target %s not found' % sel[1])
+        elif sel[0] in ('assign_value', 'augassign_value'):
+            typ = ast.Assign if sel[0] == 'assign_value' else ast.AugAssign
+            hits = []
+            for st in stmts:
+                for node in ast.walk(st):
+                    if isinstance(node, typ):
+                        tg = node.targets if typ is ast.Assign else [node.target]
+                        if any(ast.unparse(t) == sel[1] for t in tg):
+                            hits.append(node)
+            if len(hits) != 1:
+                raise Fail('%d assignments to %s' % (len(hits), sel[1]))
+            return [ast.Return(value=hits[0].value)]
         elif sel[0] == 'listcomp_elt':
             # element expression of the list comprehension assigned to sel[1]
             for st in stmts:
@@ -613,7 +662,10 @@ def translate_item(trees, item):
     for text, coq, kind in item.get('const', []):
         env[text] = (coq, kind)
     tr = Tr(env, item['file'])
-    t, k = tr.body(stmts, tuple(item['result']))
+    tr.module = trees[item['file']]
+    res = item['result']
+    res = (res[0], tuple(res[1])) if res[0] == 'superinit' else tuple(res)
+    t, k = tr.body(stmts, res)
     if isinstance(k, tuple) and k[0] == 'RNG':
         t = '(map (fun k_ : nat => %s) (seq 0 (Z.to_nat %s)))' % (t, k[1])
         k = ('L', 'R')
